@@ -217,6 +217,10 @@ class _RecordRun:
         self.link_miss = bool(missing_links(self.record))
         self.regions = list(self.record.get_regions())
         self.bio = self.record.to_biopython()
+        # as in main.write_outputs: the full record already carries its antiSMASH-Data structured comment
+        # (main.add_antismash_comments) when the region files are written from the shared SeqRecord
+        self.bio.annotations.setdefault("structured_comment", {})["antiSMASH-Data"] = {
+            "Version": "verif", "Run date": "2026-01-01 00:00:00"}
         self.before_bio = bio_snapshot(self.bio)
         # taken after the conversion: side effects of to_biopython itself are C10's subject
         self.before_record = observe.dump(copy.deepcopy(self.record)) if self.regions else None
